@@ -214,6 +214,112 @@ impl EnumProp for SizeGrid {
     }
 }
 
+/// Shapes obtained by READING files (conformant ones and ones with odd but accepted part offsets) announce what they emit too.
+#[derive(Serialize, Deserialize, Debug, Clone, Hash)]
+pub struct ReadCase {
+    pub model: vlib::refcodec::FileModel,
+    /// (index among the PartOffset / NumPoints fields, new value)
+    pub patches: Vec<(usize, i32)>,
+}
+
+pub struct SizeOfRead;
+impl Prop for SizeOfRead {
+    type Case = ReadCase;
+    fn name() -> &'static str {
+        "size-of-read-shapes"
+    }
+    fn rule() -> &'static str {
+        "proptest: files from the reference encoder (13 concrete types, foreign layouts), optionally with part offsets / point counts \
+         patched to small values; every shape the typed reader returns must announce exactly the bytes its write_to emits, and a file \
+         written from those shapes must decode strictly. Non-trivial: a patched part offset was accepted by the reader, or a record uses \
+         a layout the writer never emits"
+    }
+    fn check(c: &ReadCase, ctx: &mut Ctx) -> Result<(), Fail> {
+        struct F<'a>(&'a ReadCase, &'a mut Ctx);
+        impl KindFn for F<'_> {
+            type Out = Result<(), Fail>;
+            fn call<K: Kind>(self) -> Self::Out
+            where
+                shapefile::Error: From<<K as TryFrom<Shape>>::Error>,
+            {
+                let (c, ctx) = (self.0, self.1);
+                let enc = refcodec::encode(&c.model);
+                let mut shp = enc.shp.clone();
+                let sites: Vec<&refcodec::Field> = enc
+                    .fields
+                    .iter()
+                    .filter(|f| !f.in_shx && matches!(f.kind, refcodec::FieldKind::PartOffset | refcodec::FieldKind::NumPoints))
+                    .collect();
+                for (i, v) in &c.patches {
+                    if !sites.is_empty() {
+                        refcodec::patch_field(&mut shp, sites[i % sites.len()], *v);
+                    }
+                }
+                let mut r = match open_mem(&shp, None) {
+                    Ok(r) => r,
+                    Err(_) => return Ok(()),
+                };
+                let mut got: Vec<K> = Vec::new();
+                for item in r.iter_shapes_as::<K>() {
+                    match item {
+                        Ok(s) => got.push(s),
+                        Err(_) => break,
+                    }
+                }
+                if (!c.patches.is_empty() && !got.is_empty()) || crate::c03::foreign_layout(&c.model) {
+                    ctx.nontrivial();
+                }
+                for (i, s) in got.iter().enumerate() {
+                    let announced = s.size_in_bytes();
+                    let mut buf = Vec::new();
+                    if let Err(e) = s.write_to(&mut buf) {
+                        fail!("write-error", "shape {} read from a file cannot be serialised: {}", i, err_str(&e));
+                    }
+                    ensure!(
+                        buf.len() == announced,
+                        "size-mismatch",
+                        "shape {} ({}) read from a file (patches {:?}): size_in_bytes() = {}, write_to emitted {} bytes",
+                        i,
+                        s.view().short(),
+                        c.patches,
+                        announced,
+                        buf.len()
+                    );
+                }
+                if !got.is_empty() {
+                    let (out, _) = write_bytes(&got, false, Finish::Drop).map_err(|e| Fail::new("write-error", e))?;
+                    if let Err(e) = refcodec::decode(&out, Mode::Strict) {
+                        fail!("malformed", "file written from shapes that were read back (patches {:?}): {}", c.patches, e);
+                    }
+                }
+                Ok(())
+            }
+        }
+        dispatch(c.model.ty, F(c, ctx))
+    }
+}
+
+impl RandomProp for SizeOfRead {
+    fn strategy(_env: &Env) -> BoxedStrategy<ReadCase> {
+        (crate::c03::file_model(4, 4, 6), proptest::collection::vec((any::<usize>(), 0i32..8), 0..3))
+            .prop_filter_map("typed file", |(mut m, patches)| {
+                if m.ty == Ty::Null {
+                    return None;
+                }
+                m.recs.retain(|r| r.geom.ty != Ty::Null);
+                m.trailing.clear();
+                Some(ReadCase {
+                    model: m,
+                    patches: patches.into_iter().map(|(i, v)| (i % 4096, v)).collect(),
+                })
+            })
+            .boxed()
+    }
+    fn cases(env: &Env) -> u64 {
+        env.n(13 * 4000, 13 * 150_000)
+    }
+}
+
 pub struct SizeRandom;
 impl Prop for SizeRandom {
     type Case = SizeCase;
